@@ -9,7 +9,7 @@
                             resubmit itself}; Drop drains with the marker and releases the self reference once
   R-EFFECT.noblock          Submit/Call/Drop contain no blocking call (the strand never blocks a worker)
 """
-from rules import lib_exec, lib_order
+from rules import lib_exec, lib_order, lib_shape
 
 S = 'yaclib::Strand'
 
@@ -23,7 +23,10 @@ def run(ctx):
     rs = ctx.rule('R-STRAND.schedule', 'self-submission iff the idle marker was replaced; IncRef before it', minimum=1)
     rb = ctx.rule('R-STRAND.batch-end', 'a batch ends by exactly one of go-idle(DecRef) / resubmit', minimum=2)
     rn = ctx.rule('R-EFFECT.noblock', 'no blocking call in Submit/Call/Drop', minimum=3)
+    rsh = ctx.rule('R-SHAPE', 'Call / Drop finish every job of the detached batch exactly once and lose none (shape '
+                   'analysis over list segments, all batch sizes)', minimum=2)
     for cfg, fb in sorted(fbs.items()):
+        lib_shape.check(ctx, fb, rsh, lambda qn: 'Strand' in qn, 2)
         if cfg == 'K17':
             lib_order.check(ctx, fb, cfg, [S + '::_jobs'], rw, ro, rc)
         fns = {f.n: f for f in fb.fn.values() if f.clsq == S and f.cfg is not None}
